@@ -29,6 +29,36 @@ claim('C19',
       'TLA+ spec (Reservoir.tla, Counters.tla) + TLC exhaustive/simulation + trace validation of recorded executions',
       'DESIGN.md 3/C19')
 
+_INJ = ('TLC model-checks Inject.tla, whose states are route configurations built by actions (middlewares at application and '
+        'route level, request/endpoint/render functions, required/defaulted parameters, three provides tuples, URL bindings, '
+        'resources, malformations): the fold-for-fold transcription of chain_argspec/make_chain/make_middleware_chain/'
+        'build_chain_str (Algo*) is checked equal to the declarative rule (Resolvable on the route AND the catch-all, Conflict, '
+        'Allowed, SpecKw) on every configuration within the budgets (exhaustive) and by simulation beyond. ')
+claim('C01', _INJ +
+      'Bound to the code: TLC-emitted configurations are compiled into real Middleware classes and functions (7 carriers, '
+      'keyword-only and positional-only parameters), constructed via constructor and add(); outcome must be in the spec\'s '
+      'Allowed set (ok / NameError / rejected), and requests to the route, to the endpoint-returns-Response variant and to '
+      'the catch-all (404, 405) must not fail with an argument error and must pass every function exactly the names the spec computed.',
+      'Trusted: TLC; exec-generated functions; *args/**kwargs, partial, classes as endpoints excluded; cyclic provide graphs accept '
+      'either outcome; beyond the budgets the rule is argued size-independent, not proved.',
+      'TLA+ spec (Inject.tla) + TLC exhaustive/simulation + replay of TLC-generated configurations into real Applications',
+      'DESIGN.md 3/C01')
+claim('C02', _INJ +
+      'Bound to the code: every source is instantiated with a distinct sentinel object and every value received by every chain '
+      'function is projected back to its source tag and compared with SpecKw (url / resource identity / builtin / middleware i '
+      'phase p of THIS request / own default / endpoint result), for three request scenarios, under 4-8 PYTHONHASHSEEDs; '
+      'the generated chain sources (branch-free) are parsed and their call-site keyword lists compared with the spec (all-requests argument).',
+      'Trusted: TLC; identity of sentinel objects; the ast-based static leg is skipped (and reported) if sinter internals are renamed.',
+      'TLA+ spec (Inject.tla) + TLC + sentinel-object replay of TLC-generated configurations + static wiring comparison',
+      'DESIGN.md 3/C02')
+claim('C04', _INJ +
+      'C04 instance: reserved names admitted as URL bindings, resources and provides, both malformations enabled; every pair of '
+      'source kinds (url/resource/builtin/middleware within and across phases and levels) is enumerated exhaustively; replayed '
+      'constructions must raise NameError where the spec pins it and must be rejected wherever any defect is present.',
+      'Trusted: TLC; when several defect classes coincide only rejection is required; _ignored excluded from alphabets.',
+      'TLA+ spec (Inject.tla, defect-enabled instance) + TLC exhaustive + replay of TLC-generated configurations',
+      'DESIGN.md 3/C04')
+
 claim('C06',
       'TLC model-checks Dispatch.tla: the dispatch loop (one action per branch of Application.dispatch, DispatchState as '
       'variables) is proved equal to the declarative Answer() - first match in add() order, method admission incl. HEAD-via-GET '
